@@ -6,7 +6,8 @@ from vlib import cz, czl, fc, fcl, fl
 
 LEVEL_TEXT = ("Coq theorems (abstract ordered field with conjugation; every P, N, NFFT, K) about the model of eigen()/pmusic/pev: "
               "entries and shape of the forward-backward data matrix (with the NP>100 truncation), its rank factorisation for a "
-              "noiseless sum of K exponentials, 'FB v = 0 => the noise polynomial vanishes at every true pole' (Vandermonde "
+              "noiseless sum of K exponentials and 'at most K non-zero singular values' for any SVD meeting its specification, "
+              "'FB v = 0 => the noise polynomial vanishes at every true pole' (Vandermonde "
               "elimination, forward block alone or backward block alone) and the converse, hence zero MUSIC/EV denominators at the true "
               "bins; positivity of the pseudo-spectrum; the complete decision logic of NSIG/threshold/criteria with its error enum; and "
               "the axis theorems (entry j of eigen / pmusic / pev is the pseudo-spectrum at the bin frequencies() reports for j, both "
@@ -22,9 +23,12 @@ TRUSTED = ["Coq 8.16.1 kernel + vm_compute", "hand-written model coq/Model/Eigen
            "Python harness"]
 UNPROVED = ["'the K largest local maxima lie within one bin of the true frequencies': the theorem gives zero denominators at the true bins "
             "(infinite peaks in exact arithmetic); that the binary64 values there dominate is search only",
-            "'exactly K singular values are non-negligible': rank FB <= K is proved as a factorisation; the numerical statement is search only",
+            "'exactly K singular values are non-negligible': 'S_I = 0 for I >= K' is proved (for any SVD meeting its specification); that the "
+            "first K are non-zero and that numpy's trailing values are negligible is search only",
             "everything downstream of the SVD is conditional on the SVD specification",
-            "AIC/MDL values themselves (logarithms): only 'NSIG = argmin + 1' is modelled"]
+            "AIC/MDL values themselves (logarithms): only 'NSIG = argmin + 1' is modelled",
+            "EV positivity needs positive noise singular values; on exactly rank-deficient data it fails in the model and in the code "
+            "(Example ev_zero_singular_value_not_positive; violation key ev_zero_singular_value/*)"]
 ASSUMPTIONS = ["exact arithmetic in the theorems", "SVD specification (Section variables)",
                "local-maxima clause is checked literally only for true bins pairwise >= 2 bins apart (two adjacent on-grid bins cannot both be "
                "local maxima); for every set the stronger dominance clause is checked: each true bin exceeds every bin farther than one bin from all true bins"]
@@ -369,6 +373,17 @@ def check_exclusive(x, P, NFFT, method, kw):
     return []
 
 
+def check_wrappers(x, P, NFFT, kw):
+    """music() / ev() are eigen() with the method fixed and every other argument passed through"""
+    from spectrum.eigenfre import eigen, music, ev
+    bad = []
+    for name, f in (('music', music), ('ev', ev)):
+        a, sa = f(x, P, NFFT=NFFT, **kw); b, sb = eigen(x, P, NFFT=NFFT, method=name, **kw)
+        if not (np.array_equal(np.asarray(a), np.asarray(b), equal_nan=True) and np.array_equal(np.asarray(sa), np.asarray(sb))):
+            bad.append(('wrapper/%s' % name, '%s(x, P, %r) differs from eigen(method=%r)' % (name, kw, name)))
+    return bad
+
+
 def replay(rep):
     r = rep['replay']; kind = r['kind']
     x = vlib.unhexv(r['x'])
@@ -382,6 +397,8 @@ def replay(rep):
         return not check_pseudo_def(x, r['P'], r['NFFT'], r['method'], r['kw'], r['kwtag'])
     if kind == 'exclusive':
         return not check_exclusive(x, r['P'], r['NFFT'], r['method'], r['kw'])
+    if kind == 'wrapper':
+        return not check_wrappers(x, r['P'], r['NFFT'], r['kw'])
     raise ValueError('unknown replay kind %r' % kind)
 
 
@@ -644,3 +661,6 @@ def run(ctx):
             if kwtag != 'criteria':
                 for key, what in check_exclusive(x, P, NFFT, m, kw):
                     ctx.violation(key, what, rep('exclusive', x, P=P, NFFT=NFFT, method=m, kw=kw))
+            ctx.count('search/wrapper/' + kwtag); ctx.case(('wrapper', x.tobytes(), P, NFFT, repr(kw)), nontrivial=(P >= 3))
+            for key, what in check_wrappers(x, P, NFFT, kw):
+                ctx.violation(key, what, rep('wrapper', x, P=P, NFFT=NFFT, kw=kw))
